@@ -19,6 +19,7 @@ import (
 
 	"verifmc/ev"
 	"verifmc/memdev"
+	"verifmc/oracle/fatck"
 )
 
 func init() {
@@ -28,9 +29,10 @@ func init() {
 }
 
 type c18Base struct {
-	CleanAlloc uint64 // bytes allocated by walking the undamaged image
-	CleanReads int64  // device reads issued by walking the undamaged image
-	Kind       string // how to open: fat12 fat16 fat32 ext4 iso squashfs
+	CleanAlloc uint64   // bytes allocated by walking the undamaged image
+	CleanReads int64    // device reads issued by walking the undamaged image
+	Kind       string   // how to open: fat12 fat16 fat32 ext4 iso squashfs
+	Boundary   []uint32 // format-specific boundary values tried as 16/32-bit little-endian words (FAT: cluster-number limits)
 	HasFix     bool
 	Name       string
 	Dev        *memdev.Dev
@@ -85,7 +87,15 @@ func buildC18Bases(quick bool) []c18Base {
 			f.Close()
 		}
 		s.dev.Allowed = nil
-		out = append(out, c18Base{Name: cfg.String(), Kind: fmt.Sprintf("fat%d", cfg.Type), Dev: s.dev, Size: cfg.Size})
+		// cluster-number limits: the number of FAT slots and the number of data clusters (+2), each -1/0/+1
+		var bnd []uint32
+		if ck := fatck.Check(s.dev, 0, cfg.Size, cfg.Type); ck != nil && ck.FATBytes > 0 {
+			slots := uint32(ck.FATBytes * 8 / int64(cfg.Type))
+			for _, n := range []uint32{slots, ck.Clusters + 2} {
+				bnd = append(bnd, n-1, n, n+1)
+			}
+		}
+		out = append(out, c18Base{Name: cfg.String(), Kind: fmt.Sprintf("fat%d", cfg.Type), Dev: s.dev, Size: cfg.Size, Boundary: bnd})
 	}
 	// ext4 with and without metadata checksums, plus a multi-extent file and fast/slow symlinks
 	for _, nocsum := range []bool{true, false} {
@@ -367,8 +377,18 @@ func newC18Target(quick bool) *c18Target {
 				}
 				if o%2 == 0 {
 					for _, w := range []int{2, 4} {
-						if o+int64(w) > rg.Hi || (quick && w == 2) || o%int64(w) != 0 {
+						if o+int64(w) > rg.Hi || (quick && w == 2 && len(b.Boundary) == 0) || o%int64(w) != 0 {
 							continue
+						}
+						for _, v := range b.Boundary {
+							if w == 2 && v > 0xFFFF {
+								continue
+							}
+							pat := make([]byte, 4)
+							binary.LittleEndian.PutUint32(pat, v)
+							if w == 2 || b.Kind == "fat32" {
+								t.cases = append(t.cases, c18Case{Base: bi, Patch: bytePatch{o, pat[:w]}, Label: "cluster-limit"})
+							}
 						}
 						for pi, pat := range lePatterns(w, b.Size) {
 							if quick && pi != 1 && pi != 2 {
